@@ -9,6 +9,7 @@ import (
 	"strings"
 
 	"github.com/regclient/regclient/scheme"
+	"github.com/regclient/regclient/types/descriptor"
 	"github.com/regclient/regclient/types/errs"
 	"github.com/regclient/regclient/types/mediatype"
 	"github.com/regclient/regclient/types/ref"
@@ -31,15 +32,12 @@ func (o *OCIDir) tagDelete(_ context.Context, r ref.Ref) error {
 	if err != nil {
 		return fmt.Errorf("failed to read index: %w", err)
 	}
-	changed := false
-	for i, desc := range index.Manifests {
-		if t, ok := desc.Annotations[aOCIRefName]; ok && t == r.Tag {
-			// remove matching entry from index
-			index.Manifests = slices.Delete(index.Manifests, i, i+1)
-			changed = true
-		}
-	}
-	if !changed {
+	// remove every entry for the tag, an index written by another tool may have more than one
+	count := len(index.Manifests)
+	index.Manifests = slices.DeleteFunc(index.Manifests, func(desc descriptor.Descriptor) bool {
+		return refNameMatch(desc.Annotations[aOCIRefName], r.Tag)
+	})
+	if len(index.Manifests) == count {
 		return fmt.Errorf("failed deleting %s: %w", r.CommonName(), errs.ErrNotFound)
 	}
 	// push manifest back out
